@@ -68,6 +68,7 @@ func selectablePeers(a *SimNode) []*peers.Peer {
 // are no-ops, so that every sub-list of a schedule is a schedule.
 func (c *Cluster) exec(s *Step) {
 	c.stepNo++
+	progress.Add(1)
 	c.stats.Steps++
 	c.stats.Ops[s.Op]++
 	c.inner = NewRNG(Mix(c.seed^0x5bd1e995, uint64(c.stepNo)))
@@ -338,6 +339,7 @@ func (c *Cluster) opFairCycle(s *Step) {
 				continue
 			}
 			a.node.SimGossip(p)
+			progress.Add(1)
 			synctest.Wait()
 			c.runWakeups()
 		}
